@@ -218,7 +218,7 @@ func EvRemoveSync(
 			if mach.Not(states) {
 				return true
 			}
-			return true
+			return false
 		}
 	}
 }
